@@ -10,8 +10,11 @@ template<class V, class D> std::array<typename V::scalar, V::width> get_value(co
 
 template<class V>
 void check_lanes(Cell& c, const char* how, const avel::Denominator<V>& den, const std::array<typename V::scalar, V::width>& d,
-                 const std::array<typename V::scalar, V::width>& n) {
+                 const std::array<typename V::scalar, V::width>& n_in) {
     typedef typename V::scalar T;
+    // (MIN, -1) lanes are outside the statement (signed overflow): never fed to the code under observation
+    std::array<typename V::scalar, V::width> n = n_in;
+    for (unsigned i = 0; i < V::width; ++i) if (!den_domain(n[i], d[i])) n[i] = 0;
     const unsigned W = V::width;
     const int bits = sizeof(T) * 8;
     std::array<T, V::width> q, rm, q2, r2, q3, r3;
